@@ -182,6 +182,8 @@ class StrSE:
                 self.ev(s, e.slice, k2)
             return self.ev(st, e.value, kk)
         if isinstance(e, ast.Call): return self.call(st, e, k)
+        if isinstance(e, ast.Set) and all(isinstance(x, ast.Constant) and isinstance(x.value, str) and len(x.value) == 1 for x in e.elts):
+            return k(st, ('cset', [ord(x.value) for x in e.elts]))
         raise Unsupported('expression ' + type(e).__name__)
 
     def as_str(self, st, v):
@@ -202,6 +204,9 @@ class StrSE:
                 return k(st, ('bool', t if isinstance(op, ast.Is) else Not(t)))
             if a[0] == 'bool' and b[0] == 'bool':
                 t = a[1] == b[1]; return k(st, ('bool', t if isinstance(op, ast.Is) else Not(t)))
+        if isinstance(op, (ast.In, ast.NotIn)) and a[0] == 'chr' and b[0] == 'cset':
+            t = Or([a[1] == v for v in b[1]])
+            return k(st, ('bool', t if isinstance(op, ast.In) else Not(t)))
         if a[0] == 'int' and b[0] == 'int':
             t = {ast.Lt: a[1] < b[1], ast.LtE: a[1] <= b[1], ast.Gt: a[1] > b[1], ast.GtE: a[1] >= b[1], ast.Eq: a[1] == b[1], ast.NotEq: a[1] != b[1]}.get(type(op))
             if t is not None: return k(st, ('bool', t))
@@ -316,6 +321,9 @@ class StrSE:
         spec = self.loops.get((fn.name, loops.index(node)))
         if spec is None: raise Unsupported('no invariant for loop %d of %s' % (loops.index(node), fn.name))
         def with_range(s, r):
+            over_str = None
+            if r[0] == 'str':                      # for ch in <string>: positions 0..len-1, the target is the character
+                over_str = r[1]; r = ('range', IntVal(0), over_str.n)
             if r[0] != 'range': raise Unsupported('loop over ' + r[0])
             lo, hi = r[1], r[2]
             entry = dict(s.env)
@@ -328,7 +336,7 @@ class StrSE:
             for v in spec['modifies']:
                 sb.env[v] = ('str', fresh_str(v)) if entry[v][0] == 'str' else entry[v]
             sb.pc += [lo <= i, i < hi] + [g for _, g in spec['inv'](entry, sb.env, lo, i, hi)]
-            sb.env[node.target.id] = ('int', i)
+            sb.env[node.target.id] = ('int', i) if over_str is None else ('chr', over_str.a[i])
             def body_end(s2):
                 for name, g in spec['inv'](entry, s2.env, lo, i + 1, hi):
                     self.obligations.append(('%s.loop%d/preserve/%s' % (fn.name, loops.index(node), name), list(s2.pc), g))
